@@ -272,7 +272,14 @@ def work_multi_entry(chunk, st):
             if len(docs) != len(vlines):
                 st.violation('%s:wrong-number-of-results' % tag, dict(d, got=len(docs)))
                 continue
-            if variant is not None:
+            # results come out in completion order: match them to the entries by the target they name
+            by_target = {}
+            for doc in docs:
+                by_target.setdefault(doc.get('target'), []).append(doc)
+            want_labels = ['%s:%d' % (host, eport) for host, _ip, eport, _k in expect]
+            if len(set(want_labels)) == len(want_labels) and all(len(by_target.get(l, [])) == 1 for l in want_labels):
+                docs = [by_target[l][0] for l in want_labels]
+            elif variant is not None:
                 docs = docs[1:]
             connects = [(ev[2], ev[3]) for ev in w.log if ev[0] == 'connect']
             if sorted(set(connects)) != sorted(set((ip, pt) for _h, ip, pt, _k in expect)):
